@@ -506,6 +506,211 @@ def boundary_runs(chk, thorough):
                samples=[str(per_col)[:600]])
 
 
+# ----------------------------------------------------------------------------------------------
+# round 4: the property on what ONE execution showed, whatever the route (u1_util.Result)
+
+def judge_result(rural, res, M, D, days, windmin, prec):
+    """C02 on the observation of one run: the hourly forcing record n (where the route shows records) equals the
+    rural row stamped start + n hours - wind raised to the minimum wind speed THE USER configured -, the wind cell
+    written to that row is that wind at the configured precision, the row keeps its stamp, every other row and every
+    unmodelled cell is the rural one. Returns None or (message, observed, expected)."""
+    from uwg.psychrometrics import hum_from_rhum_temp
+    from t1_util import num as fl
+    import u1_util as U1
+    if res.error:
+        return ('the run did not complete (%s)' % res.stage, res.error, 'every hour of the window recorded and written')
+    with open(rural, newline='') as f:
+        orig = [r for r in csv.reader(f) if r][8:]
+    with open(res.file, newline='') as f:
+        new = [r for r in csv.reader(f) if r][8:]
+    N = 24 * days
+    j0 = doy0(M, D)
+    if len(new) != len(orig):
+        return ('data rows in the written file', len(new), len(orig))
+    recs = res.records
+    if recs is not None and (len(recs) != N or any(r is None for r in recs)):
+        return ('hourly records taken', [n for n, r in enumerate(recs) if r is not None][-3:], 'records 0..%d' % (N - 1))
+    by_stamp = {}
+    for k, r in enumerate(orig):
+        by_stamp.setdefault((int(r[1]), int(r[2]), int(r[3])), k)
+    window = set()
+    for n in range(N):
+        k = by_stamp.get(stamp_dt(24 * j0 + n))
+        if k is None:
+            return ('rural file has no row stamped start + %d hours' % n, None, list(stamp_dt(24 * j0 + n)))
+        window.add(k)
+        src = orig[k]
+        exp_wind = max(fl(src[21]), windmin)
+        if recs is not None:
+            got = dict(zip(U1.W_FIELDS, (float(x) for x in recs[n]['w'])))
+            exp = {'temp': fl(src[6]) + 273.15, 'rHum': fl(src[8]), 'pres': fl(src[9]), 'infra': fl(src[12]),
+                   'dir': fl(src[14]), 'dif': fl(src[15]), 'uDir': fl(src[20]), 'wind': exp_wind,
+                   'hum': hum_from_rhum_temp(fl(src[8]), fl(src[6]), fl(src[9]))}
+            badf = sorted(f for f in exp if got[f] != exp[f])
+            if badf:
+                return ('hourly forcing record %d differs from the rural row stamped start + %d hours (%s/%s h%s: T=%s RH=%s '
+                        'P=%s wind=%s; minimum wind speed configured: %r): field(s) %s' % (
+                            n, n, src[1], src[2], src[3], src[6], src[8], src[9], src[21], windmin, ', '.join(badf)),
+                        {f: got[f] for f in badf}, {f: exp[f] for f in badf})
+        want = '{0:.{1}f}'.format(exp_wind, prec)
+        if new[k][21] != want:
+            return ('wind written to the row stamped %s/%s h%s (hour %d; rural wind %s, minimum wind speed configured %r, '
+                    'epw_precision %d)' % (src[1], src[2], src[3], n, src[21], windmin, prec), new[k][21], want)
+        if new[k][:6] != src[:6] or new[k][9:21] != src[9:21] or new[k][22:] != src[22:]:
+            return ('stamp / unmodelled cells of the row written for hour %d' % n, new[k][:6], src[:6])
+    for k in range(len(orig)):
+        if k not in window and new[k] != orig[k]:
+            return ('row %d outside the window was modified' % k, new[k][:22], orig[k][:22])
+    return None
+
+
+def circumstance_runs(chk, thorough):
+    """(x1) the six circumstances of harness/generic.py on an un-stubbed run, judged by judge_result; (x2) every documented
+    parameter that is NOT the minimum wind speed moved off its shipped value; (x3) time steps that are not whole numbers
+    of seconds: whatever the package accepts keeps record n on row n."""
+    import u1_util as U1
+    rng = chk.rng
+    work = os.path.join(chk.work(), 'c02x')
+    os.makedirs(work)
+    rural = os.path.join(work, 'rural_pattern.epw')
+    make_rural(simdriver.epw_path(), rural)
+    param = simdriver.param_path()
+    late = [d for d in dates() if d != (12, 31)]
+
+    def report(what, case, msg):
+        chk.violation('impl-violation', what, case=case, observed={'what': msg[0], 'value': msg[1]}, expected=msg[2],
+                      how='harness/u1_util.py execute(spec) / run_circumstances(spec); harness/props/c02.py judge_result')
+
+    # ---- (x1) circumstances ------------------------------------------------------------------------------
+    n1 = b1 = 0
+    br1 = {}
+    for rep in range(1 if not thorough else 3):
+        M, D = rng.choice(late)
+        wm = [None, 2.5, 0.5][rep % 3]
+        attrs = [('month', M), ('day', D), ('nday', 1), ('dtsim', 300)] + ([('windmin', wm)] if wm else [])
+        # (this member's rural file: every third modelled cell of the window at / beyond the EPW limits or in another
+        #  spelling - RH 100..110, calm and 10 / 20 m/s winds, "100,900", "1.009E5" ...: what a "repair" step would touch)
+        rural1 = os.path.join(work, 'rural_x1_%d.epw' % rep)
+        make_rural(simdriver.epw_path(), rural1, boundary=(24 * doy0(M, D), 24, rng.randint(0, 23)))
+        sp = U1.spec(rural1, attrs=attrs, param=param, outdir=os.path.join(work, 'x1_%d' % rep), outname='m.epw')
+        other = U1.spec(rural, attrs=[('month', (M % 12) + 1), ('day', 3), ('nday', 1), ('dtsim', 300), ('windmin', 3.0),
+                                      ('bldheight', 30)], param=param, outname='other.epw',
+                        label='another model on the same rural file with minimum wind speed 3')
+        windmin = float(U1.build(sp).windmin)
+        out = U1.run_circumstances(work, sp, other, tag='x1_%d' % rep)
+        plain = out[0][1]
+        if plain.error and 'FATAL' in plain.error:
+            chk.notes.append('C02 circumstance run %s stopped by the model\'s own FATAL ERROR: not a verdict' % (attrs,))
+            continue
+        for nm, r, msgs in out:
+            n1 += 1
+            br1[nm] = br1.get(nm, 0) + 1
+            msg = (msgs[0], None, 'no trace in the caller\'s data / class-level state') if msgs else None
+            msg = msg or judge_result(rural1, r, M, D, 1, windmin, 1)
+            if not msg:
+                ap = U1.against_plain(U1.reference_for(out, nm), r)
+                msg = ap and ('differs from the plain run: ' + ap[0], ap[1], ap[2])
+            if msg:
+                b1 += 1
+                if b1 <= 3:
+                    report('C02 row / wind / stamp oracle under a circumstance that is not an input (%s)' % nm,
+                           {'circumstance': nm, 'route': r.route, 'month': M, 'day': D, 'nday': 1, 'dtsim': 300,
+                            'windmin': windmin, 'epw': simdriver.EPWS[0] + ' with wind column w_k=((7k) mod 120)/10'}, msg)
+    chk.direct('row-oracle under circumstances (observers, DEBUG, python -O, command line, neighbours, caller data)', n1, n1,
+               'an un-stubbed generate; simulate; write_epw on the Singapore file with a row-identifying wind column and every '
+               'third modelled cell of the window at / beyond the EPW limits or in another spelling (t1_util.MILD), run '
+               'plainly; while repr / str / ToString of the model and of every reachable uwg object is taken after '
+               'construction, after generate(), every 41st step of simulate(), after simulate() and after write_epw(); with '
+               'DEBUG logging; in a fresh `python -O` interpreter; through `python [-O] -m uwg simulate model|param` (the JSON also with whole numbers typed as ints); '
+               'interleaved with another model on the same file that has another minimum wind speed; from the caller\'s '
+               'own dictionary edited in place after generate(). Each observation: forcing record n = the rural row '
+               'stamped start + n hours with wind raised to the CONFIGURED minimum, written wind cell, stamps, all other '
+               'cells unchanged; and records + written bytes identical to the plain run',
+               mismatches=b1, branches=br1)
+
+    # ---- (x2) parameters that are not the minimum wind speed ------------------------------------------------
+    members = [(k, v) for k in U1.HEIGHTS for v in U1.ALT_PARAMS[k]]
+    rest = [(k, v) for k in sorted(U1.ALT_PARAMS) if k not in U1.HEIGHTS for v in U1.ALT_PARAMS[k]]
+    members += rest if thorough else rng.sample(rest, 6)
+    members.append(('*heights', None))
+    n2 = b2 = 0
+    br2 = {}
+    wms = [None, 2.5, 0.5, 0.25, 1.75]
+    for i, (name, val) in enumerate(members):
+        M, D = rng.choice(late)
+        wm = wms[i % len(wms)]
+        extra = [(k, U1.ALT_PARAMS[k][-1]) for k in U1.HEIGHTS] if name == '*heights' else [(name, val)]
+        attrs = [('month', M), ('day', D), ('nday', 1), ('dtsim', 300)] + extra + ([('windmin', wm)] if wm else [])
+        real = (name == 'h_wind' and i < 2)              # two of them with the un-stubbed physics
+        sp = U1.spec(rural, attrs=attrs, param=param, outdir=os.path.join(work, 'x2'), outname='p%d.epw' % i,
+                     stub=not real)
+        r = U1.execute(sp, keep_model=False)
+        if r.error and real and 'FATAL' in r.error:
+            chk.notes.append('C02 un-stubbed run with %s stopped by the model\'s own FATAL ERROR: not a verdict' % (extra,))
+            continue
+        n2 += 1
+        br2[('heights' if name in U1.HEIGHTS or name == '*heights' else 'other') +
+            (', un-stubbed' if real else ', physics stubbed')] = br2.get(
+            ('heights' if name in U1.HEIGHTS or name == '*heights' else 'other') +
+            (', un-stubbed' if real else ', physics stubbed'), 0) + 1
+        msg = judge_result(rural, r, M, D, 1, float(wm) if wm else 1.0, 1)
+        if msg:
+            b2 += 1
+            if b2 <= 3:
+                report('C02 record / written wind whatever the OTHER parameters are (%s)' % ', '.join(
+                    '%s=%r' % kv for kv in extra),
+                       {'month': M, 'day': D, 'nday': 1, 'dtsim': 300, 'windmin': wm if wm else 'shipped (1.0)',
+                        'parameters moved off the shipped value': dict(extra), 'physics': 'real' if real else 'stubbed',
+                        'epw': simdriver.EPWS[0] + ' with wind column w_k=((7k) mod 120)/10'}, msg)
+    chk.direct('record+wind-oracle(every other parameter moved off its shipped value)', n2, n2,
+               'the record of hour n is rural row n and the written wind is max(rural wind, CONFIGURED minimum wind speed) '
+               'whatever the other parameters are: one run per member, each with one documented parameter moved to another '
+               'legal value - the heights h_wind (2, 30, 5.5 m; every shipped example has 10), h_temp, h_ref, h_obs, '
+               'h_ubl1, h_ubl2, all heights at once, and (quick: 6 random, thorough: all) of c_circ, c_exch, maxday, '
+               'maxnight, bldheight, h_mix, blddensity, vertohor, charlength, albroad, droad, sensanth, covers, vegstart / '
+               'vegend, albveg, rurvegcover, latgrss / lattree, kroad, croad, occupancy fractions, the six optional '
+               'overrides, autosize, zone - x minimum wind speed shipped / 2.5 / 0.5 / 0.25 / 1.75, on a rural file with '
+               'calm hours in every window; two h_wind members with the un-stubbed physics, the others with the physics '
+               'stubbed from outside (loop, records, write_epw real). The expected wind uses the value the USER set, not '
+               'what generate() stored',
+               mismatches=b2, branches=br2)
+
+    # ---- (x3) time steps that are not whole numbers of seconds -----------------------------------------------
+    odd = [(112.5, 11), (7.5, 1), (22.5, 2), (12.5, 1), (1800.5, 1), (300.0, 1), (0.5, 1), (37.5, 4)]
+    if thorough:
+        odd += [(56.25, 10), (2.5, 1), (1.5, 1), (450.0, 2), (3600.0, 2), (187.5, 9), (0.75, 1), (112.5, 20), (7.5, 3)]
+    n3 = b3 = 0
+    br3 = {}
+    for i, (dtv, nd) in enumerate(odd):
+        M, D = rng.choice([d for d in dates() if doy0(*d) + nd <= 364])
+        sp = U1.spec(rural, attrs=[('month', M), ('day', D), ('nday', nd), ('dtsim', dtv)], param=param,
+                     outdir=os.path.join(work, 'x3'), outname='d%d.epw' % i, stub=True)
+        sp['max_steps'] = 40000 if not thorough else 400000
+        r = U1.execute(sp, keep_model=False)
+        n3 += 1
+        if r.error and r.stage in ('construct', 'generate'):
+            kind = 'refused' if r.error_class != 'TooLong' else 'accepted, too many steps for this tier'
+            br3[kind] = br3.get(kind, 0) + 1
+            continue
+        acc = 'accepted as dt = %s' % (r.info or {}).get('simdt')
+        br3['accepted'] = br3.get('accepted', 0) + 1
+        msg = judge_result(rural, r, M, D, nd, 1.0, 1)
+        if msg:
+            b3 += 1
+            if b3 <= 2:
+                report('C02 record n on row n for every time step the package accepts (dtsim = %r, %s)' % (dtv, acc),
+                       {'dtsim': dtv, 'time step in force (simTime.dt)': (r.info or {}).get('simdt'), 'month': M, 'day': D,
+                        'nday': nd, 'physics': 'stubbed', 'epw': simdriver.EPWS[0] + ' with wind column w_k=((7k) mod 120)/10'},
+                       msg)
+    chk.direct('row-oracle(time steps that are not whole seconds: whatever is accepted keeps record n on row n)', n3, n3,
+               'dtsim = 112.5 (11 days), 7.5, 22.5 (2 days), 37.5 (4 days), 12.5, 1800.5, 0.5 and the float spelling 300.0 '
+               '(thorough: also 56.25, 2.5, 1.5, 0.75, 187.5, 450.0, 3600.0, longer windows): the package may cut, refuse or '
+               'accept them; for every value it accepts (setter and generate() do not raise) the run - physics stubbed, '
+               'loop / records / write_epw real, window long enough for a truncation of the step to add up to whole hours - '
+               'must put record n on the rural row stamped start + n hours and write its wind there',
+               mismatches=b3, branches=br3)
+
+
 def stamp_dt(k):
     """EPW hour-ending stamp of data row k from datetime: the row describes the hour beginning k hours
     after 1 Jan 00:00; month/day of that instant, hour number 1..24."""
@@ -690,6 +895,7 @@ def run(chk):
                'still be the row',
                mismatches=len(wbad), branches={'runs': len(reals)})
     boundary_runs(chk, thorough)
+    circumstance_runs(chk, thorough)
     # the doubles named in theorem asis_float_rowidx_wrong are the ones CPython computes
     import math
     ph = 48 / 3600.
@@ -720,7 +926,13 @@ def replay(chk, path):
               v.get('theorem_or_tie'))
         return 2
     cfg = (c['month'], c['day'], c['nday'], c['dtsim'])
-    if 'shift' in c:
+    if 'circumstance' in c or 'physics' in c:
+        circumstance_runs(chk, chk.tier == 'thorough')     # the round-4 families are re-explored (same seed)
+        msg = None
+        if chk.violations:
+            w = chk.violations[0]
+            msg = (w['observed']['what'], w['observed']['value'], w['expected'])
+    elif 'shift' in c:
         _, msg = boundary_run(chk, 0, cfg[0], cfg[1], cfg[2], cfg[3], c['epw_precision'], c['windmin'], c['shift'])
     elif 'write_epw' in (v.get('theorem_or_tie') or ''):
         name = c['epw'].split(' ')[0]
